@@ -16,12 +16,12 @@ RULE = (
     "{letter, lower-case letter, word, lower-case word, letter+trailing text}, body shape per section in {1 item, "
     "empty, 2 items, trailing blank, trailing comment}, ~O bodies incl. inner blank and item-looking lines, one "
     "steering decoy (VERS/WRAP/NULL/DLM with a value that would change parsing) in ~C, ~P or the custom section, "
-    "2..3 data rows with one genuine-NULL and one decoy-NULL cell, both engines; enumeration = k-deviation ball "
+    "2..3 data rows with one genuine-NULL and one decoy-NULL cell, both engines, ignore_data on/off; custom titles incl. ~MUD_DATA / ~mud_data / ~Run_parameter / ~TOOL_DEFINITION; enumeration = k-deviation ball "
     "around the canonical file with the order axis taking all 720 values; non-trivial = order differs from "
     "V,W,C,P,O,X,A or a title is not the upper-case letter form or a decoy is present"
 )
 ASSUMPTIONS = [
-    "~V first; custom titles start with a letter outside VWCPOA and contain no underscore",
+    "~V first; custom titles start with a letter outside VWCPOA and do not contain the LAS 3.0 spellings _Data/_Parameter/_Definition (other cases of these words are ordinary titles)",
     "title lines have no leading blanks; mnemonics are upper case (mnemonic_case default)",
     "~O bodies carry no trailing blank line (whether a trailing blank line is kept is not specified)",
 ]
@@ -33,7 +33,8 @@ TITLES = {
     "C": ["~C", "~c", "~Curve", "~curve", "~C urve information"],
     "P": ["~P", "~p", "~Parameter", "~parameter", "~P arameter information"],
     "O": ["~O", "~o", "~Other", "~other", "~O ther information"],
-    "X": ["~Xtra", "~xtra", "~X", "~x", "~Xtra custom block"],
+    # (the LAS 3.0 spellings _Data / _Parameter / _Definition are excluded; other cases of the same words are ordinary titles)
+    "X": ["~Xtra", "~xtra", "~X", "~x", "~Xtra custom block", "~MUD_DATA", "~mud_data notes", "~Run_parameter", "~TOOL_DEFINITION"],
     "A": ["~A", "~a", "~ASCII", "~ascii", "~A Log data section"],
 }
 BODIES = ["one", "empty", "two", "trailing_blank", "trailing_comment"]
@@ -49,12 +50,13 @@ ORDERS.insert(0, "WCPOXA")
 def axes():
     ax = [("order", ORDERS)]
     for s in "VWCPOXA":
-        ax.append(("t" + s, [0, 1, 2, 3, 4]))
+        ax.append(("t" + s, list(range(len(TITLES[s])))))
     for s in "VWCPX":
         ax.append(("b" + s, [0, 1, 2, 3, 4]))
     ax.append(("bO", [0, 1, 2, 3]))
     ax.append(("decoy", DECOYS))
     ax.append(("rows", [2, 3]))
+    ax.append(("ignore_data", [False, True]))
     return ax
 
 
@@ -151,7 +153,7 @@ def check_point(pt):
                 "repro": "import lasio; las=lasio.read(%r, engine=%r); print(las.sections.keys()); print(las.data)" % (text, pt["engine"])}
 
     try:
-        las = lasio.read(text, engine=pt["engine"])
+        las = lasio.read(text, engine=pt["engine"], ignore_data=pt.get("ignore_data", False))
     except Exception as e:
         return [V("read-raises", "a successful read", "%s: %s" % (type(e).__name__, str(e)[:160]))], nontriv, "raise", {}, 1
     vio = []
@@ -175,6 +177,8 @@ def check_point(pt):
             vio.append(V("items-of-" + key if s != "X" else "items-of-custom", want, got))
     if las.sections.get("Other") != abstract["O"]:
         vio.append(V("other-text", abstract["O"], las.sections.get("Other")))
+    if pt.get("ignore_data"):
+        return vio, nontriv, "ok", {}, 1
     try:
         data = las.data
         ok = data.shape == exp.shape and np.array_equal(np.isnan(data), np.isnan(exp)) and np.array_equal(
@@ -196,6 +200,10 @@ def classify(pt, clause):
         feats.append("decoy:%s-in-%s" % (pt["decoy"][1], pt["decoy"][0]))
     if pt["order"].index("A") != 5:
         feats.append("inner-A")
+    if pt.get("ignore_data"):
+        feats.append("ignore_data")
+    if pt["tX"] >= 5:
+        feats.append("custom-title-with-underscore")
     return "+".join(feats) or "plain"
 
 
